@@ -219,6 +219,33 @@ int main(int argc, char** argv) {
           }
         }
       }
+      // ---------------- D: shaving with refuted slices: a narrow bump y = max(0, 1 - a (x-c)^2) and an excluded band (x-d)^2 >= w^2;
+      //                     the planted point (c, 1) lies in ONE slice, slices before it are refuted (3BCID / CID with scid = 1..5)
+      {
+        Array<const ExprSymbol> sx(2); sx.set_ref(0, ExprSymbol::new_("z0", Dim::scalar())); sx.set_ref(1, ExprSymbol::new_("z1", Dim::scalar()));
+        double c = r.range(1, 15) / 16.0, a = (double)(1 << r.range(4, 8)), d = r.range(1, 15) / 16.0, w = r.range(1, 4) / 16.0;
+        if (std::fabs(c - d) <= w) d = c > 0.5 ? c - w - 0.0625 : c + w + 0.0625;
+        bool swapxy = r.coin(30);
+        const ExprSymbol& X = sx[swapxy ? 1 : 0]; const ExprSymbol& Y = sx[swapxy ? 0 : 1];
+        const ExprNode& e1 = Y - max(ExprConstant::new_scalar(0.0), 1.0 - a * sqr(X - c));
+        const ExprNode& e2 = sqr(X - d) - w * w;
+        SystemFactory fac; fac.add_var(sx); fac.add_ctr(ExprCtr(e1, EQ)); fac.add_ctr(ExprCtr(e2, GEQ));
+        string dags = dump_expr(e1, sx) + "|" + dump_expr(e2, sx), specs = "eq|geq";
+        System sys(fac);
+        Vector pl(2); pl[swapxy ? 1 : 0] = c; pl[swapxy ? 0 : 1] = 1.0;
+        CtcHC4 hc4(sys, r.coin() ? 0.01 : 0.1, r.coin(30));
+        for (int k = 0; k < 6; k++) {
+          int s3b = r.range(2, 12), scid = r.range(1, 5);
+          Ctc3BCid cid(hc4, s3b, scid, r.coin() ? -1 : r.range(1, 2), r.coin() ? 1e-11 : 0.01);
+          CtcAcid acid(sys, hc4, false, s3b, scid, 1e-11, r.coin() ? 0.005 : 0.5);
+          Ctc& ct = r.coin(70) ? (Ctc&)cid : (Ctc&)acid;
+          IntervalVector in(2); for (int i = 0; i < 2; i++) in[i] = Interval(r.coin(60) ? 0.0 : -r.range(0, 8) / 8.0, r.coin(60) ? 1.0 : 1.0 + r.range(0, 8) / 8.0);
+          IntervalVector out = in; ct.contract(out);
+          if (r.coin(40)) { IntervalVector again = in; ct.contract(again); out = again; }     // (second call on the same object)
+          check_round_up("3bcid-bump");
+          emit_points(r, dags, specs, in, out, pl);
+        }
+      }
       } catch (std::exception& e) { EMIT("harnesserror %s => 0\n", e.what()); }
     }
   } else if (wl == "c04t") { wl_c04t(r, n);
